@@ -66,7 +66,7 @@ def main():
     meta["demo"] = {"clean_exit": rc_clean, "patched_exit": rc_mut, "patched_tail": out_mut.strip().splitlines()[-3:], "wall_s": round(time.time() - t0, 1)}
     print(f"demo: clean exit={rc_clean} patched exit={rc_mut}")
     if tests:
-        rc, out = sh(["/venv/bin/python", "/tmp/probe/check_tests.py", scr, "-n", "6"] + tests, timeout=7200)
+        rc, out = sh(["/venv/bin/python", os.path.join(VERIF, "vf", "tools_check_tests.py"), scr, "-n", "6"] + tests, timeout=7200)
         meta["stable_tests"] = {"paths": tests, "exit": rc, "tail": out.strip().splitlines()[-6:]}
         print("stable tests:", rc, out.strip().splitlines()[-3:])
     meta["checks"] = {}
